@@ -65,6 +65,7 @@ Inductive obs :=
 Inductive act :=
 | APush (n : nat) | APop (n : nat) | ASetPc (p : nat) | AEnvPush | AEnvPop | AProbe (id : nat)
 | ACall (argc regs : nat) (hs : list handler) (construct : bool) (envfp nenv : nat) (body : acts)
+| ANew (argc regs : nat) (hs : list handler) (envfp nenv : nat) (init : racts) (body : acts)
 | ACallErr (limits_first : bool)
 | ACallNative (argc : nat) (construct : bool) (body : racts)
 | ARust (body : racts)
@@ -78,6 +79,7 @@ with ract :=
 | RHostCallNative (argc : nat) (body : racts)
 | RHostConstruct (argc regs : nat) (hs : list handler) (envfp nenv : nat) (proto_ok : bool) (body : acts)
 | RHostConstructNative (argc : nat) (body : racts)
+| RHostNew (argc regs : nat) (hs : list handler) (envfp nenv : nat) (init : racts) (body : acts)
 | RResume (g : nat) (kind : rkind) (body : acts)
 | RBlock (body : racts)
 | RHostModuleLink (regs : nat)
@@ -286,6 +288,29 @@ Fixpoint run_act (v : vm) (a : act) {struct a} : vm * ctl * list obs :=
             end
         end
       else (v, Continue, [])
+  | ANew ac rg hs envfp nenv init body =>
+      (* function_construct reached from bytecode, step by step: limits; pop new_target; the Rust code that runs
+         before the callee frame exists (prototype lookup, InitializeInstanceElements: field initialisers and
+         private methods, each a nested host [[Call]]) -- its `?` returns with no frame pushed --; push_frame; body *)
+      let need := ac + 3 in
+      if rp (top v) + regs (top v) + need <=? stack v then
+        match check_limits v with
+        | Some k => let '(v1, c) := handle_error fx v false in (v1, c, [OLimit k])
+        | None =>
+            let v1 := set_stack v (stack v - 1) in
+            let '(v1', ri, oi) := run_racts v1 ROk init in
+            match ri with
+            | ROk =>
+                let v2 := push_frame v1' (ordinary_frame ac rg hs false envfp nenv) in
+                let '(v3, r, o) := run_acts v2 body in
+                match r with
+                | Some c => (v3, Break c, oi ++ o)
+                | None => (v3, Continue, oi ++ o)
+                end
+            | _ => let '(v3, c) := err_ctl v1' ri in (v3, c, oi)
+            end
+        end
+      else (v, Continue, [])
   | ACallErr lf =>
       (* [[Call]] fails before a frame is pushed: function_call checks the limits first (class constructor
          called without `new`), non-callable values fail at once *)
@@ -445,6 +470,33 @@ with run_ract (v : vm) (last : rres) (r : ract) {struct r} : vm * option rres * 
             let v2 := if fx_call fx then trunc v1' s0 else v1' in
             done v2 (RErr true)
       end
+  | RHostNew ac rg hs envfp nenv init body =>
+      (* JsObject::construct on an ordinary constructor, function_construct step by step (see ANew) *)
+      let s0 := stack v in
+      let v1 := set_stack v (s0 + 3 + ac) in
+      match check_limits v1 with
+      | Some k =>
+          let v2 := if fx_call fx then trunc v1 s0 else v1 in
+          let '(v3, x, res, o) := done v2 (RErr false) in (v3, x, res, OLimit k :: o)
+      | None =>
+          let v1' := set_stack v1 (stack v1 - 1) in
+          let '(v1i, ri, oi) := run_racts v1' ROk init in
+          match ri with
+          | ROk =>
+              let v2 := push_frame v1i (ordinary_frame ac rg hs true envfp nenv) in
+              let v3 := set_hdepth v2 (S (hdepth v2)) in
+              let '(v4, r, o) := run_acts v3 body in
+              let c := boundary v4 r in
+              let v5 := set_hdepth v4 (hdepth v4 - 1) in
+              match pop_frame v5 with
+              | Some (_, v6) => let '(v7, x, res, o2) := done v6 (compl_res c) in (v7, x, res, oi ++ o ++ o2)
+              | None => let '(v7, x, res, o2) := done v5 RPanic in (v7, x, res, oi ++ o ++ o2)
+              end
+          | _ =>
+              let v2 := if fx_call fx then trunc v1i s0 else v1i in
+              let '(v3, x, res, o2) := done v2 ri in (v3, x, res, oi ++ o2)
+          end
+      end
   | RHostConstructNative ac body =>
       (* native_function_construct: limits are checked before new_target/args/func/this are popped *)
       let s0 := stack v in
@@ -555,6 +607,7 @@ Definition is_ok (r : rres) : bool := match r with ROk => true | _ => false end.
 Fixpoint genfree_act (a : act) : bool :=
   match a with
   | ACall _ _ _ _ _ _ b => genfree_acts b
+  | ANew _ _ _ _ _ i b => genfree_racts i && genfree_acts b
   | ACallNative _ _ b => genfree_racts b
   | ARust b => genfree_racts b
   | AGenCreate => false
@@ -570,6 +623,7 @@ with genfree_ract (r : ract) : bool :=
   | RHostCallNative _ b => genfree_racts b
   | RHostConstruct _ _ _ _ _ _ b => genfree_acts b
   | RHostConstructNative _ b => genfree_racts b
+  | RHostNew _ _ _ _ _ i b => genfree_racts i && genfree_acts b
   | RResume _ _ _ => false
   | RBlock b => genfree_racts b
   | _ => true
